@@ -21,6 +21,7 @@ def _stopper(v):
 def _one(ctx, sc, entry, stats):
     recs, h, w = rig.run(sc, entry)
     ctx.inc("runs")
+    ctx.inc("calls", len(recs))
     common.check_recs(ctx, sc, entry, recs, [O.o_caps], stats)
     for rec in recs:
         v = View(rec, sc)
@@ -106,7 +107,7 @@ def conclude(ctx):
             "configurations, entries rotated) + seeded random scenarios over all 20 entry points + reuse-vs-fresh differential; "
             "a run is non-trivial when it was stopped by a cap (global/per-class/UNKNOWN/non-retryable); distinct = distinct (caps, outcome script, entry)"
         ),
-        evaluations=ctx.cnt["runs"],
+        evaluations=ctx.cnt["calls"],
         nontrivial=len(ctx.sets["nontrivial"]),
         floors=floors,
         assumptions=common.ASSUME_COMMON + ["failure classes are the scripted ones: the classifier stub returns the class the script names"],
